@@ -1570,7 +1570,9 @@ pub fn implicit_cast_type(op: &ArithOp, ty1: &Type, ty2: &Type) -> Type {
         Mod | Rem | Shl | Shr | BitXOr | BitOr | BitAnd => types::promote_types(ty1, ty2),
 
         Div => {
-            if matches!(ty1, Type::Float(..)) || matches!(ty2, Type::Float(..)) {
+            if matches!(ty1, Type::Float(..) | Type::Complex(..))
+                || matches!(ty2, Type::Float(..) | Type::Complex(..))
+            {
                 types::promote_types(ty1, ty2)
             } else {
                 Type::Float(None, IsConst::False)
